@@ -230,6 +230,10 @@ func (g *gen) discharge(base string, opt dischargeOpts) []result {
 			sem <- struct{}{}
 			defer func() { <-sem }()
 			o := g.obls[k]
+			if o.excluded {
+				res[k] = result{obl: o, status: "excluded"}
+				return
+			}
 			need := map[string]bool{}
 			var work []string
 			add := func(ss []string) {
@@ -440,7 +444,13 @@ func (g *gen) discharge(base string, opt dischargeOpts) []result {
 		}(k)
 	}
 	wg.Wait()
-	return res
+	out := res[:0]
+	for _, r := range res {
+		if r.status != "excluded" {
+			out = append(out, r)
+		}
+	}
+	return out
 }
 
 // parseModel parses the (get-value ...) answer: ((term value) ...)
